@@ -58,7 +58,7 @@ let exec_cmd () =
         List.iter (fun (t, o) ->
             if !failed = None then begin
               (if t < 0 || t >= !n then failed := Some (Printf.sprintf "event %d: worker %d out of range" !k t)
-               else match xstep nn nfiles gid (nat_of_int t) o !x with
+               else match xstep nfiles gid (nat_of_int t) o !x with
                  | Some x' -> x := x'
                  | None ->
                    let pc = try show_pc (List.nth (!x).xpc t) with _ -> "?" in
